@@ -10,7 +10,7 @@ if [ "$1" = "-j" ]; then J=$2; shift 2; fi
 want=" $* "
 export GOFLAGS=-mod=mod GOPROXY=off
 # solver processes per check: the CPUs are divided among the J checks running side by side
-PROCS=$(( $(nproc) / J )); [ $PROCS -lt 2 ] && PROCS=2; export PROCS
+PROCS=${ST_PROCS:-$(( $(nproc) / J ))}; [ $PROCS -lt 2 ] && PROCS=2; export PROCS
 run_one() {
   prop=$1; patch=$2
   s=$(mktemp -d "${TMPDIR:-/var/tmp}/govc_musthold.XXXXXX")
